@@ -1,5 +1,5 @@
 (* C01 - Recognition is exact.  Statements only; proofs are in the cited files. *)
-From YV Require Import Prelude EarleySpec Recognizer Viable Lookahead.
+From YV Require Import Prelude EarleySpec Recognizer Viable Lookahead YaepClosure.
 
 (* The declarative item system is exactly "valid item of the consumed prefix". *)
 Theorem C01_items_characterised : forall g axiom p i, Item g axiom p i <-> valid g axiom p i.
@@ -21,3 +21,21 @@ Theorem C01_verdict_under_lookahead : forall g axiom (keep : option nat -> item 
   forall w, (exists i, ItemF g axiom keep w w i /\ final axiom i) <-> sentence g axiom w.
 Proof. exact acceptF. Qed.
 Print Assumptions C01_verdict_under_lookahead.
+
+(* YAEP's treatment of nullable symbols (the dot is moved over a nullable
+   nonterminal when a set is expanded; the completer fires for situations with a
+   nullable tail whose origin is an earlier set; nothing is completed over an
+   empty span) derives exactly the textbook items ... *)
+Theorem C01_yaep_rules_derive_the_same_items : forall g axiom nl,
+  (forall x, nl x = true <-> derives g [N x] []) ->
+  forall p i, YItem g axiom nl p i <-> Item g axiom p i.
+Proof. exact YItem_iff. Qed.
+Print Assumptions C01_yaep_rules_derive_the_same_items.
+
+(* ... and a family of sets closed under these five rules contains every item of every prefix. *)
+Theorem C01_closed_sets_are_complete : forall g axiom nl,
+  (forall x, nl x = true <-> derives g [N x] []) ->
+  forall w S_, certificate g axiom nl w S_ ->
+  forall k i, k <= length w -> Item g axiom (firstn k w) i -> In i (S_ k).
+Proof. exact certificate_contains_all_items. Qed.
+Print Assumptions C01_closed_sets_are_complete.
